@@ -126,7 +126,7 @@ def run(tier, t0):
         ndir, scales = 4, [1e-12, 1e-9, 1e-6, 1e-3, 1e-1]
     else:
         ndir, scales = 12, geo.SCALES
-    for kind, lon, lat in geo.special_sites():
+    for kind, lon, lat in geo.special_sites(tier, common.seed()):
         tasks.append((work_site, (kind, lon, lat, ndir, scales, tier == 'thorough')))
     tasks = common.rotate(tasks, common.seed())
     for part in common.pmap(_dispatch, tasks):
